@@ -191,6 +191,11 @@ var table = map[string]spec{
 	"nns.deleteRecords/2": {kind: kKey, alt: adminAlone, key: func(p *prep) *keys.PrivateKey { return p.u0k }, args: func(p *prep) []any { return []any{"own.com", int64(16)} }},
 	"nns.register/7": {kind: kKey, key: func(p *prep) *keys.PrivateKey { return p.u1k }, args: func(p *prep) []any {
 		return []any{"fresh.com", p.u1.ScriptHash(), "a@b.c", int64(1), int64(1), int64(1000), int64(1)}
+	}, never: func(p *prep) [][]any {
+		// a fourth-level name below deep.uone.com (owner u0) for u1, who owns the second-level uone.com: that takes u0's
+		// witness as well, which none of the signer sets of this row carries together with u1's (seeded change C03-10: the
+		// second-level owner asked instead of the owner of the directly enclosing name)
+		return [][]any{{"x.deep.uone.com", p.u1.ScriptHash(), "a@b.c", int64(1), int64(1), int64(1000), int64(1)}}
 	}},
 	"nns.registerTLD/6": {kind: kMajority, args: func(p *prep) []any { return []any{"org", "a@b.c", int64(1), int64(1), int64(1000), int64(1)} }},
 	"nns.renew/2":       {kind: kKey, key: func(p *prep) *keys.PrivateKey { return p.u0k }, args: func(p *prep) []any { return []any{"own.com", int64(1)} }},
@@ -358,7 +363,7 @@ func runMethod(b *runner.Batch, n int, art, method string, arity int, s spec) {
 				r := p.w.Invoke(ss.signers, h, method, args...)
 				b.Tx(1)
 				if !(r.Rejected != "" || r.Faulted() || (r.Halted() && r.Diff.Empty() && len(r.Events) == 0 && tokenMoves(p.w, r) == 0)) {
-					b.Violation(fmt.Sprintf("%s with argument list #%d (a Null party or the contract's own address as the holder) under signer set '%s' changed state, moved tokens or notified", key, ai, ss.label),
+					b.Violation(fmt.Sprintf("%s with argument list #%d (an argument list nobody in this row is entitled to) under signer set '%s' changed state, moved tokens or notified", key, ai, ss.label),
 						map[string]any{"method": key, "signers": ss.label, "committee": n, "tx": p.w.RenderResult(r, true)})
 				}
 				b.Eval(fmt.Sprintf("%s|never%d|%s|%s|n%d", key, ai, ss.label, r.State, n), true)
